@@ -231,8 +231,18 @@ func genRouter(r *rand.Rand, n int, mode string, out *bufio.Writer) {
 				ops = append(ops, map[string]any{"op": "clean", "pat": "", "methods": []string{}, "mws": []string{}, "chain": chain, "res": false})
 			}
 		}
+		th := []map[string]any{}
+		for k := 0; k < 3; k++ {
+			body := []string{"", "<a href='x'>&\"</a>", l1enc(randBytes(r, 12)), l1enc("a\x00b<\xff>")}[r.IntN(4)]
+			n := 0
+			if body != "" && r.IntN(3) == 0 {
+				n = -1
+			}
+			th = append(th, map[string]any{"op": "tracehelper", "method": "TRACE", "path": l1enc(mutatePath(r, "/p<q>", true)),
+				"hdr": map[string]string{"X-T": l1enc("v&'" + randBytes(r, 3))}, "body": body, "flag": r.IntN(2) == 0, "n": n})
+		}
 		c := gcase{Fam: "router", ID: fmt.Sprintf("g%s:%d", mode, ci), Cfg: cfg, Ops: ops, Battery: "every", Base: true,
-			Pool: map[string]any{"probes": probes, "methods": methods}}
+			Pool: map[string]any{"probes": probes, "methods": methods, "th": th}}
 		b, _ := json.Marshal(c)
 		out.Write(b)
 		out.WriteByte('\n')
@@ -466,7 +476,7 @@ func randCase(r *rand.Rand, s string) string {
 
 func genCors(r *rand.Rand, n int, out *bufio.Writer) {
 	origins := []string{"https://o1.example", "https://o2.example", "http://o1.example", "null", "*"}
-	hnames := []string{"Content-Type", "X-A", "X-Token", "Authorization", "*"}
+	hnames := []string{"Content-Type", "X-A", "X-Token", "Authorization", "X-CSRF-Token", "X-Client-Id", "content-length", "x-b", "*"}
 	pick := func(pool []string, max int) []string {
 		k := r.IntN(max + 1)
 		out := []string{}
@@ -477,7 +487,7 @@ func genCors(r *rand.Rand, n int, out *bufio.Writer) {
 	}
 	sp := func() string { return []string{"", " ", "  ", "\t"}[r.IntN(4)] }
 	for ci := 0; ci < n; ci++ {
-		cors := map[string]any{"on": true, "origins": pick(origins, 3), "allow": pick(hnames, 3), "expose": pick([]string{"E1", "E2", "X-Rate"}, 2),
+		cors := map[string]any{"on": true, "origins": pick(origins, 3), "allow": pick(hnames, 4), "expose": pick([]string{"E1", "E2", "X-Rate"}, 2),
 			"maxage": []int{0, -1, -2, 50, 86400}[r.IntN(5)], "cred": r.IntN(3) == 0}
 		cfg := map[string]any{"name": "r", "trace": false, "icpt": map[string]string{}, "domain": "", "cors": cors}
 		ops := []map[string]any{
@@ -505,7 +515,7 @@ func genCors(r *rand.Rand, n int, out *bufio.Writer) {
 				k := 1 + r.IntN(3)
 				parts := []string{}
 				for i := 0; i < k; i++ {
-					h := hnames[r.IntN(4)]
+					h := hnames[r.IntN(8)]
 					switch r.IntN(8) {
 					case 0:
 						h = "X-Evil"
